@@ -134,6 +134,13 @@ func (r *Run) exit(code int) {
 	os.Exit(code)
 }
 
+// SetExtra records an extra evidence value; safe to call from the workers of Parallel.
+func (r *Run) SetExtra(k string, v any) {
+	r.mu.Lock()
+	r.Extra[k] = v
+	r.mu.Unlock()
+}
+
 // Start parses the command line: <tier> | --replay <file>; env VERIF_SEED, VERIF_TIER.
 func Start(id, level string) *Run {
 	r := &Run{ID: id, Level: level, Tier: "quick", Seed: 1, start: time.Now(),
